@@ -3323,7 +3323,14 @@ void Analyser::AnalyserImpl::analyseModel(const ModelPtr &model)
                 }
             }
         } else {
-            variableDependencies = internalEquation->mDependencies;
+            // Note: as above, a dependency may have been recorded before the
+            //       primary variable of its equivalence class was final (e.g.,
+            //       a state initialised in one component, read in another and
+            //       whose ODE is in a third one).
+
+            for (const auto &dependency : internalEquation->mDependencies) {
+                variableDependencies.push_back(Analyser::AnalyserImpl::internalVariable(dependency)->mVariable);
+            }
         }
 
         AnalyserEquationPtrs equationDependencies;
